@@ -43,6 +43,9 @@ type VerifGlueRec struct {
 	Obs      []VerifChk // what the check engine answered
 	p        *tak.Position
 	g        *bot.Game
+	// the per-call time budget (WithDeadline / WithTimeout seam) and whether it runs out while the searcher works
+	budgetCancel   context.CancelFunc
+	expireInSearch bool
 }
 
 func (r *VerifGlueRec) add(e string) {
@@ -103,7 +106,9 @@ func verifGlueAfter(ctx context.Context, d time.Duration) <-chan time.Time {
 func verifGlueWithDeadline(ctx context.Context, d time.Duration) (context.Context, context.CancelFunc) {
 	if r := verifGlueRecOf(ctx); r != nil {
 		r.add("deadline:" + strconv.FormatInt(int64(d), 10))
-		return context.WithCancel(ctx)
+		c, cancel := context.WithCancel(ctx)
+		r.budgetCancel = cancel
+		return c, cancel
 	}
 	return context.WithDeadline(ctx, time.Now().Add(d))
 }
@@ -112,7 +117,9 @@ func verifGlueWithDeadline(ctx context.Context, d time.Duration) (context.Contex
 func verifGlueWithTimeout(ctx context.Context, d time.Duration) (context.Context, context.CancelFunc) {
 	if r := verifGlueRecOf(ctx); r != nil {
 		r.add("timeout:" + strconv.FormatInt(int64(d), 10))
-		return context.WithCancel(ctx)
+		c, cancel := context.WithCancel(ctx)
+		r.budgetCancel = cancel
+		return c, cancel
 	}
 	return context.WithTimeout(ctx, d)
 }
@@ -189,6 +196,11 @@ func (s *verifGlueSpy) GetMove(ctx context.Context, p *tak.Position) tak.Move {
 	} else {
 		m = s.v.stubAnswer
 	}
+	if r != nil && r.expireInSearch && r.budgetCancel != nil {
+		// the budget ran out while the engine searched: the engine truncates to its deepest completed iteration and
+		// returns that iteration's move - an answer like any other
+		r.budgetCancel()
+	}
 	if r != nil {
 		r.mu.Lock()
 		r.AICalls++
@@ -212,6 +224,7 @@ type VerifGlue struct {
 
 	rec        *VerifGlueRec
 	stubAnswer tak.Move
+	expireNext bool
 }
 
 const (
@@ -284,8 +297,12 @@ func (v *VerifGlue) Close() {
 
 // Call runs the real GetMove on p with the record as it stands.  stub: the stub searcher's answer;
 // chk: the check engine's answers in call order (nil: the real engine answers, see Obs).
+// ExpireNext: in the next Call the per-call time budget runs out while the searcher works
+func (v *VerifGlue) ExpireNext() { v.expireNext = true }
+
 func (v *VerifGlue) Call(p *tak.Position, stub tak.Move, chk []VerifChk, realCheck bool) (tak.Move, *VerifGlueRec) {
-	r := &VerifGlueRec{stubs: chk, useStubs: !realCheck, p: p, g: v.G}
+	r := &VerifGlueRec{stubs: chk, useStubs: !realCheck, p: p, g: v.G, expireInSearch: v.expireNext}
+	v.expireNext = false
 	v.rec = r
 	v.stubAnswer = stub
 	defer func() { v.rec = nil }()
